@@ -1,3 +1,4 @@
+import WmModel.Props.C05Live
 import WmModel.Props.C05Reg
 import WmModel.Props.C04Exit
 import WmModel.Props.C05
@@ -16,3 +17,7 @@ import WmModel.Props.C05
 #print axioms Wm.GcSub.acked_exit_means_delivered_and_acked
 #print axioms Wm.GcSub.unacked_exit_means_closing
 #print axioms Wm.GcSub.sender_exits_once
+#print axioms Wm.GcReg.nonblocking_no_deadlock
+#print axioms Wm.GcReg.blocking_deadlock_needs_nested_publish
+#print axioms Wm.GcReg.closing_no_deadlock
+#print axioms Wm.GcReg.d11_has_nested_publish
